@@ -17,6 +17,7 @@ from kv.stubs import mk_engine, mk_obj, snapshot, NoTracing, TxSession
 from harness.c08 import mk_request
 
 from kmip.core import attributes, enums, objects as cobjects, primitives, secrets
+from kmip.core import exceptions as kex
 from kmip.core.messages import payloads
 from kmip.pie import objects as pobjects
 from kmip.pie import sqltypes
@@ -262,6 +263,119 @@ def register_get(kind, version, nbytes, fix_names=None):
     return h
 
 
+def factory_roundtrip(kind):
+    """pie object -> core secret (ObjectFactory) -> TTLV -> core secret -> pie object: every attribute the
+    pie class carries comes back (what Register stores and what Get hands out both pass through here)."""
+    from kmip.pie import factory as pfactory
+    from kmip.core import utils as cutils
+    from kmip.core.factories import secrets as sfactory
+    A = enums.CryptographicAlgorithm
+
+    def h(value: bytes, n1: int, n2: int, n3: int, prime: int, has_prime: bool, mi: int, ai: int, fi: int) -> bool:
+        """
+        post: _
+        """
+        if len(value) != 16 or not (1 <= n1 <= 255 and 1 <= n2 <= 255 and 1 <= n3 <= 255 and 0 <= prime < 2 ** 61
+                                   and 0 <= mi <= 2 and 0 <= ai <= 1 and 0 <= fi <= 1):
+            return True
+        f = pfactory.ObjectFactory()
+        if kind == "SymmetricKey":
+            x = pobjects.SymmetricKey([A.AES, A.CAMELLIA][ai], 128, value)
+        elif kind == "PublicKey":
+            x = pobjects.PublicKey(A.RSA, 1024, value, [enums.KeyFormatType.PKCS_1, enums.KeyFormatType.X_509][fi])
+        elif kind == "PrivateKey":
+            x = pobjects.PrivateKey(A.RSA, 1024, value, [enums.KeyFormatType.PKCS_8, enums.KeyFormatType.PKCS_1][fi])
+        elif kind == "SplitKey":
+            method = [enums.SplitKeyMethod.XOR, enums.SplitKeyMethod.POLYNOMIAL_SHARING_GF_2_8,
+                      enums.SplitKeyMethod.POLYNOMIAL_SHARING_PRIME_FIELD][mi]
+            x = pobjects.SplitKey(A.AES, 128, value, split_key_parts=n1, key_part_identifier=n2, split_key_threshold=n3,
+                                  split_key_method=method, prime_field_size=prime if has_prime else None)
+        elif kind == "X509Certificate":
+            x = pobjects.X509Certificate(value)
+        elif kind == "SecretData":
+            x = pobjects.SecretData(value, [enums.SecretDataType.PASSWORD, enums.SecretDataType.SEED][ai])
+        else:
+            x = pobjects.OpaqueObject(value, enums.OpaqueDataType.NONE)
+        core = f.convert(x)
+        st = cutils.BytearrayStream()
+        try:
+            core.write(st)
+        except kex.InvalidField:
+            return True                 # documented refusal (prime-field method without a prime field size)
+        back = type(core)() if kind != "X509Certificate" else type(core)()
+        back.read(cutils.BytearrayStream(st.buffer))
+        y = f.convert(back)
+        reach()
+        if type(y) is not type(x) or y.value != x.value:
+            return False
+        for fld in ("cryptographic_algorithm", "cryptographic_length", "key_format_type", "data_type", "opaque_type",
+                    "certificate_type", "split_key_parts", "key_part_identifier", "split_key_threshold",
+                    "split_key_method", "prime_field_size"):
+            if hasattr(x, fld) and getattr(y, fld) != getattr(x, fld):
+                return False
+        return True
+    return h
+
+
+def ckp_attributes(attr):
+    """CreateKeyPair: an attribute given in the common template reaches each key unless that key's own
+    template overrides it (symbolic presence in common / public / private)."""
+    AT = enums.AttributeType
+
+    def h(in_common: bool, in_public: bool, in_private: bool) -> bool:
+        """
+        post: _
+        """
+        T = enums.Tags
+
+        def val(text):
+            if attr == "Object Group":
+                return [P.AF.create_attribute(AT.OBJECT_GROUP, text)]
+            return [P.AF.create_attribute(AT.APPLICATION_SPECIFIC_INFORMATION,
+                                          {"application_namespace": "ns", "application_data": text})]
+        base = [P.AF.create_attribute(AT.CRYPTOGRAPHIC_ALGORITHM, enums.CryptographicAlgorithm.RSA),
+                P.AF.create_attribute(AT.CRYPTOGRAPHIC_LENGTH, 2048),
+                P.AF.create_attribute(AT.CRYPTOGRAPHIC_USAGE_MASK, [M.SIGN, M.VERIFY])]
+        common = cobjects.TemplateAttribute(attributes=base + (val("c") if in_common else []),
+                                            tag=T.COMMON_TEMPLATE_ATTRIBUTE)
+        pub = cobjects.TemplateAttribute(attributes=val("u") if in_public else [], tag=T.PUBLIC_KEY_TEMPLATE_ATTRIBUTE)
+        priv = cobjects.TemplateAttribute(attributes=val("r") if in_private else [], tag=T.PRIVATE_KEY_TEMPLATE_ATTRIBUTE)
+        pl = payloads.CreateKeyPairRequestPayload(common_template_attribute=common, private_key_template_attribute=priv,
+                                                  public_key_template_attribute=pub)
+        e, s = mk_engine([], identity=("alice", None), crypto=P.RecordingCrypto())
+        e._process_operation(OP.CREATE_KEY_PAIR, pl)
+        reach()
+        if len(s.objs) != 2:
+            return False
+        public = [o for o in s.objs if type(o).__name__ == "PublicKey"][0]
+        private = [o for o in s.objs if type(o).__name__ == "PrivateKey"][0]
+
+        def got(o):
+            if attr == "Object Group":
+                return [g.object_group for g in o.object_groups]
+            return [a.application_data for a in o.app_specific_info]
+        want_pub = ["u"] if in_public else (["c"] if in_common else [])
+        want_priv = ["r"] if in_private else (["c"] if in_common else [])
+        return got(public) == want_pub and got(private) == want_priv
+    return h
+
+
+def identifiers_autoincrement():
+    """The assumption behind the stub store (identifiers are never issued twice) as declared by the
+    real schema: the managed_objects table asks SQLite for AUTOINCREMENT keys."""
+    def h(dummy: bool) -> bool:
+        """
+        post: _
+        """
+        with NoTracing():
+            t = pobjects.ManagedObject.__table__
+            flag = t.dialect_options["sqlite"].get("autoincrement", None) if "sqlite" in t.dialect_options else None
+            pk = [c.name for c in t.primary_key.columns]
+        reach()
+        return bool(flag) and pk == ["uid"]
+    return h
+
+
 def readonly(op, kind):
     def h(si: int, uid_sel: int, wrap_sel: int, owner: bool, wrap_state: int) -> bool:
         """
@@ -338,6 +452,18 @@ def conditions(tier):
                             bounds="%s addressing a stored %s in any state (identifier absent/existing/unknown; Get: "
                                    "wrapping key absent/usable/unknown, active or not), followed in the same batch by an "
                                    "operation that commits" % (op, k), timeout=600, part="readonly"))
+    for k in stubs.KINDS:
+        out.append(Cond("factory-roundtrip-%s" % k, "factory_roundtrip", dict(kind=k),
+                        bounds="%s with 16 arbitrary value bytes; split key parts / part identifier / threshold in 1..255, "
+                               "prime field size absent or < 2^61, 3 split methods; 2 algorithm / format / data-type members"
+                               % k, timeout=600, part="conversion"))
+    for attr in ("Object Group", "Application Specific Information"):
+        out.append(Cond("keypair-attributes-%s" % attr.replace(" ", ""), "ckp_attributes", dict(attr=attr),
+                        bounds="CreateKeyPair with '%s' present or not in the common, public and private templates" % attr,
+                        timeout=300, part="register-get"))
+    out.append(Cond("identifiers-autoincrement", "identifiers_autoincrement", {},
+                    bounds="read-out of the managed_objects table declaration (assumption of the stub store)", timeout=60,
+                    part="assumption"))
     from harness import c15
     for attr in ("Object Group", "Application Specific Information", "Name"):
         out.append(Cond("shared-rows-%s" % attr.replace(" ", ""), "shared_rows", dict(attr=attr, version=[1, 4]),
